@@ -48,6 +48,7 @@ def job_for(ctx, contract, unit, cases, observe=None, shapes=None):
         "cases": cases, "observe": observe or sorted(_path_expr(p) for p in types if "." in p or p in params),
         "patches": contract.native.get("patches", {}), "spec_funs": contract.native.get("spec_funs", {}),
         "class_fields": contract.class_fields, "construct": contract.native.get("construct", []), "backrefs": contract.backrefs, "native_defaults": contract.native.get("defaults", {}),
+        "yield_to": contract.yield_to, "record_list": contract.native.get("record_list"), "record_lists": contract.native.get("record_lists", []),
         "int_window": contract.native.get("int_window", [-2, 16]),
     }
 
@@ -111,30 +112,45 @@ def _path_expr(path):
 
 
 def sample_prestates(ctx, contract, unit, n, seed, shapes=None):
+    """concrete pre-states: z3 models of (type constraints + requires), diversified by greedy random nudges.
+    Quantified conjuncts are left out of the sampling solver; the harness re-checks `requires` natively and skips misses."""
     rnd = random.Random(seed)
     cases = []
     worlds = entry_worlds(ctx, contract, unit, shapes)
     if not worlds:
         return cases
     per = max(1, n // len(worlds))
+    from .engine import _has_quantifier
     for wi, (ex, alias) in enumerate(worlds):
         s = z3.Solver()
-        s.set("timeout", 5000)
+        s.set("timeout", 2000)
         s.set("random_seed", rnd.randrange(1 << 30))
-        s.add(*ex.pc)
-        # small-scope preference (dropped when it makes the precondition unsatisfiable)
+        s.add(*[c for c in ex.pc if not _has_quantifier(c)])
+        names = list(ex.inputs.items())
+        # element type invariants of object-list field arrays, instantiated for the elements the harness will build
+        for name, t in names:
+            if z3.is_array(t) and "[*]." in name and t.sort().range() == ops.Val:
+                base, fld = name.split("[*].")
+                typ = None
+                for d in contract.class_fields.values():
+                    if fld in d:
+                        typ = d[fld]
+                if fld == "__memo__":
+                    typ = "optbool"
+                from .engine import TYPE_TAGS
+                if typ in TYPE_TAGS:
+                    for i in range(8):
+                        s.add(z3.Or([ops.tag_is(ops.SV("val", z3.Select(t, i)), tg) for tg in TYPE_TAGS[typ]]))
+        # small scope first
         small = []
-        for name, t in ex.inputs.items():
+        for name, t in names:
             srt = t.sort()
             if srt == z3.IntSort():
-                small.append(z3.And(t >= -1, t <= (4 if name.endswith("!len") else 12)))
+                small.append(z3.And(t >= (0 if name.endswith("!len") else -1), t <= (4 if name.endswith("!len") else 12)))
             elif srt == z3.StringSort():
                 small.append(z3.Length(t) <= 4)
             elif z3.is_seq(t):
                 small.append(z3.Length(t) <= 4)
-                if srt == ops.IntSeq:
-                    j = z3.Int("j!s")
-                    small.append(z3.ForAll([j], z3.Implies(z3.And(j >= 0, j < z3.Length(t)), z3.And(t[j] >= -1, t[j] <= 12))))
             elif srt == ops.Val:
                 small.append(z3.Or(z3.Not(ops.Val.is_IntV(t)), z3.And(ops.Val.iv(t) >= -1, ops.Val.iv(t) <= 12)))
                 small.append(z3.Or(z3.Not(ops.Val.is_StrV(t)), z3.Length(ops.Val.sv(t)) <= 4))
@@ -143,51 +159,87 @@ def sample_prestates(ctx, contract, unit, n, seed, shapes=None):
         if s.check() != z3.sat:
             s.pop()
             s.push()
-        got = 0
-        tries = 0
-        while got < per and tries < per * 3:
-            tries += 1
-            # random nudges for diversity
-            s.push()
-            for name, t in ex.inputs.items():
-                if rnd.random() < 0.5:
-                    if t.sort() == z3.IntSort():
-                        s.add(t == rnd.randint(-1, 8))
-                    elif t.sort() == z3.BoolSort():
-                        s.add(t == rnd.choice([True, False]))
-                    elif t.sort() == ops.Val:
+            if s.check() != z3.sat:
+                continue
+
+        def nudges(name, t):
+            srt = t.sort()
+            out = []
+            if srt == z3.IntSort():
+                out.append(t == (rnd.randint(0, 4) if name.endswith("!len") else rnd.randint(-1, 8)))
+            elif srt == z3.BoolSort():
+                out.append(t == rnd.choice([True, False]))
+            elif srt == z3.StringSort():
+                out.append(t == z3.StringVal(rnd.choice(["", "a", "b", " a ", "1", "10", "x y"])))
+            elif srt == ops.Val:
+                k = rnd.random()
+                if k < 0.25:
+                    out.append(ops.Val.is_NoneV(t))
+                elif k < 0.6:
+                    out.append(t == ops.Val.IntV(rnd.randint(0, 5)))
+                elif k < 0.75:
+                    out.append(t == ops.Val.BoolV(rnd.choice([True, False])))
+                elif k < 0.95:
+                    out.append(t == ops.Val.StrV(z3.StringVal(rnd.choice(["", "a", "1", "2", "true", "b"]))))
+            elif srt == ops.IntSeq:
+                ln = rnd.randint(0, 3)
+                out.append(z3.Length(t) == ln)
+                for i in range(ln):
+                    out.append(t[i] == rnd.randint(0, 6))
+            elif srt == ops.StrSeq:
+                out.append(z3.Length(t) == rnd.randint(0, 3))
+            elif z3.is_array(t) and "[*]." in name:
+                rs = srt.range()
+                for i in range(4):
+                    e = z3.Select(t, i)
+                    if rs == z3.BoolSort():
+                        out.append(e == rnd.choice([True, False]))
+                    elif rs == z3.IntSort():
+                        out.append(e == rnd.randint(0, 3))
+                    elif rs == ops.Val:
                         k = rnd.random()
                         if k < 0.3:
-                            s.add(ops.Val.is_NoneV(t))
+                            out.append(ops.Val.is_NoneV(e))
                         elif k < 0.8:
-                            s.add(z3.Implies(ops.Val.is_IntV(t), ops.Val.iv(t) == rnd.randint(0, 6)))
-                    elif t.sort() == ops.IntSeq:
-                        s.add(z3.Length(t) == rnd.randint(0, 3))
-            r = s.check()
-            if r != z3.sat:
-                s.pop()
-                r = s.check()
-                if r != z3.sat:
-                    break
-                m = s.model()
-            else:
-                m = s.model()
-                s.pop()
+                            out.append(e == ops.Val.BoolV(rnd.choice([True, False])))
+            return out
+        for got in range(per):
+            s.push()
+            order = names[:]
+            rnd.shuffle(order)
+            for name, t in order:
+                if rnd.random() < 0.15:
+                    continue
+                for c in nudges(name, t):
+                    s.push()
+                    s.add(c)
+                    if s.check() == z3.sat:
+                        # keep: merge into the outer frame by not popping (frames are popped together below)
+                        pass
+                    else:
+                        s.pop()
+                        continue
+            if s.check() != z3.sat:
+                _pop_all(s)
+                s.push() if False else None
+                break
+            m = s.model()
             vals = {}
-            block = []
-            for name, t in ex.inputs.items():
+            for name, t in names:
                 if "[*]." in name:
                     base = name.split("[*].")[0]
                     lt = ex.inputs.get(base + "!len")
-                    n = m.eval(lt, model_completion=True).as_long() if lt is not None else 0
-                    vals[name] = [_model_value(m.eval(z3.Select(t, i), model_completion=True)) for i in range(max(0, min(n, 8)))]
+                    ln = m.eval(lt, model_completion=True).as_long() if lt is not None else 0
+                    vals[name] = [_model_value(m.eval(z3.Select(t, i), model_completion=True)) for i in range(max(0, min(ln, 8)))]
                     continue
-                v = m.eval(t, model_completion=True)
-                vals[name] = _model_value(v)
-                if t.sort() in (z3.IntSort(), z3.BoolSort(), z3.StringSort(), ops.Val, ops.IntSeq, ops.StrSeq):
-                    block.append(t != v)
-            if block:
-                s.add(z3.Or(block))
+                vals[name] = _model_value(m.eval(t, model_completion=True))
             cases.append({"id": f"w{wi}.{got}", "values": vals, "alias": alias})
-            got += 1
+            # drop this case's nudges (every kept nudge opened one frame, plus the case frame)
+            while s.num_scopes() > 1:
+                s.pop()
     return cases
+
+
+def _pop_all(s):
+    while s.num_scopes() > 1:
+        s.pop()
